@@ -170,9 +170,10 @@ CastV(x, y) ==
        [] x.t = "bytes" -> [t |-> "list", v |-> [i \in DOMAIN x.v |-> [t |-> "byte", v |-> x.v[i]]]]
        [] x.t = "concat" -> [t |-> "list", v |-> Flat(x)]
        [] x.t = "symlist" -> [t |-> "list", v |-> x.v]
-       [] x.t = "slice" -> (IF x.l.t \in {"list", "str", "bytes"} /\ IntRange(x.r) /\ x.r.l.v >= 0 /\ x.r.r.v < Len(x.l.v)
-                            THEN (LET part == SubSeq(x.l.v, x.r.l.v + 1, x.r.r.v + 1) IN
-                                  [t |-> "list", v |-> IF x.l.t = "list" THEN part ELSE [i \in DOMAIN part |-> [t |-> IF x.l.t = "str" THEN "char" ELSE "byte", v |-> part[i]]]])
+       [] x.t = "slice" -> (LET base == IF x.l.t = "concat" THEN Flat(x.l) ELSE IF x.l.t \in {"list", "str", "bytes"} THEN x.l.v ELSE <<>> IN
+                            IF x.l.t \in {"list", "str", "bytes", "concat"} /\ IntRange(x.r) /\ x.r.l.v >= 0 /\ x.r.r.v < Len(base)
+                            THEN (LET part == SubSeq(base, x.r.l.v + 1, x.r.r.v + 1) IN
+                                  [t |-> "list", v |-> IF x.l.t \in {"list", "concat"} THEN part ELSE [i \in DOMAIN part |-> [t |-> IF x.l.t = "str" THEN "char" ELSE "byte", v |-> part[i]]]])
                             ELSE SKIP)
        [] x.t = "unit" -> U
        [] OTHER -> SKIP
@@ -204,9 +205,10 @@ AccessV(l, r) ==
        [] l.t = "symlist" -> [t |-> "symlist", v |-> Append(l.v, r)]
        [] l.t = "concat" -> (LET f == Flat(l) IN IF r.v >= 0 /\ r.v < Len(f) THEN f[r.v + 1] ELSE U)     \* a concatenation is the sequence of the items of both sides
        [] l.t = "range" -> (IF ~IntRange(l) THEN SKIP ELSE IF r.v >= 0 /\ r.v < RangeLen(l) THEN MkInt(l.l.v + r.v) ELSE U)
-       [] l.t = "slice" -> (IF ~(l.l.t \in {"list", "str", "bytes"} /\ IntRange(l.r) /\ l.r.l.v >= 0) THEN SKIP
-                            ELSE IF r.v >= 0 /\ r.v < RangeLen(l.r) /\ l.r.l.v + r.v < Len(l.l.v)
-                                 THEN (LET it == l.l.v[l.r.l.v + r.v + 1] IN IF l.l.t = "list" THEN it ELSE [t |-> IF l.l.t = "str" THEN "char" ELSE "byte", v |-> it])
+       [] l.t = "slice" -> (IF ~(l.l.t \in {"list", "str", "bytes", "concat"} /\ IntRange(l.r) /\ l.r.l.v >= 0) THEN SKIP
+                            ELSE LET base == IF l.l.t = "concat" THEN Flat(l.l) ELSE l.l.v IN
+                                 IF r.v >= 0 /\ r.v < RangeLen(l.r) /\ l.r.l.v + r.v < Len(base)
+                                 THEN (LET it == base[l.r.l.v + r.v + 1] IN IF l.l.t \in {"list", "concat"} THEN it ELSE [t |-> IF l.l.t = "str" THEN "char" ELSE "byte", v |-> it])
                                  ELSE U)
        [] OTHER -> U
   ELSE IF r.t = "sym" THEN
